@@ -1,6 +1,8 @@
 //! vprim: checks that need only the asn1rs runtime primitives (no compiled schemas):
 //! C10 (PER primitives), C11 (bit buffers), C20 (DER primitives).
+mod c10;
 mod c11;
+mod c20;
 pub mod util;
 
 fn main() {
@@ -8,7 +10,9 @@ fn main() {
     let args: Vec<String> = std::env::args().skip(1).collect();
     let ctx = vcore::harness::Ctx::from_args(&args);
     let code = match ctx.prop.as_str() {
+        "C10" => c10::run(ctx),
         "C11" => c11::run(ctx),
+        "C20" => c20::run(ctx),
         other => {
             eprintln!("vprim does not serve {other}");
             2
